@@ -2,6 +2,7 @@ import AasVerif.Lemmas.Lit.Cs
 import AasVerif.Lemmas.Lit.Go
 import AasVerif.Lemmas.Lit.Py
 import AasVerif.Lemmas.Lit.Cpp
+import AasVerif.Lemmas.Lit.CppN
 import AasVerif.Lemmas.Lit.Ts
 import AasVerif.Lemmas.Lit.Java
 import AasVerif.Lemmas.Lit.Wchar
@@ -158,35 +159,42 @@ theorem cppw_roundtrip (s : Text) (hs : ∀ c ∈ s, c < 0x110000) :
     rw [flatMap_single] at hr
     simpa using hr
 
-theorem cppn_roundtrip (s : Text) (hs : ∀ c ∈ s, c ≤ 127) :
-    ∃ lit, enc_cppn s = .ok lit ∧ dec_cppn lit = some s := by
-  refine ⟨[34] ++ s.flatMap escCppW ++ [34], ?_, ?_⟩
-  · unfold enc_cppn
-    have hall : s.all (fun c => decide (c ≤ 127)) = true := by
-      simp only [List.all_eq_true, decide_eq_true_eq]; exact hs
-    rw [if_pos hall, mapRes_cppn s hs]
-    simp only [stripped]
-    rw [isStripped_quoted 34 _ (by decide)]; rfl
-  · have hs' : ∀ c ∈ s, c < 0x110000 := fun c hc => by have := hs c hc; omega
-    have hst : storable ([34] ++ s.flatMap escCppW ++ [34]) = true :=
-      storable_wrap _ _ _ (okSrc_list_small _ (by decide))
-        (okSrc_flatMap escCppW _ cppw_okSrc s hs') (okSrc_list_small _ (by decide))
-    unfold dec_cppn
-    rw [if_pos hst]
-    have hr := run_of_runs (runs_flatMap (stepCpp false 34) escCppW (fun c => [c]) [34] (· ≤ 127)
-      (fun c tail v hc h => cppn_char c tail v hc h) (Runs.done (by simp [stepCpp, skipWs])) s hs)
-    rw [flatMap_single] at hr
-    simpa using hr
+/-- The narrow `string_literal` (after the repair of C02-F2): for every text of scalar values the literal is emitted
+and denotes the UTF-8 bytes of the text — ASCII as itself / simple / octal escapes, everything else as the octal
+escapes of its UTF-8 bytes (fixed width, so a following digit is never swallowed). -/
+theorem cppn_roundtrip (s : Text) (hs : ∀ c ∈ s, okSrc c) :
+    ∃ lit, enc_cppn s = .ok lit ∧ dec_cppn lit = some (s.flatMap utf8cp) := by
+  refine ⟨[34] ++ s.flatMap escCppNT ++ [34], enc_cppn_ok s hs, ?_⟩
+  have hst : storable ([34] ++ s.flatMap escCppNT ++ [34]) = true :=
+    storable_wrap _ _ _ (okSrc_list_small _ (by decide))
+      (okSrc_flatMap escCppNT _ cppn_okSrc s hs) (okSrc_list_small _ (by decide))
+  unfold dec_cppn
+  rw [if_pos hst]
+  have hr := run_of_runs (runs_flatMap (stepCpp false 34) escCppNT utf8cp [34] okSrc
+    (fun c tail v hc h => cppn_char_all c tail v hc h) (Runs.done (by simp [stepCpp, skipWs])) s hs)
+  simpa using hr
 
-/-- Non-ASCII text: the precondition of the narrow `string_literal` reports it. -/
-theorem cppn_error_outside (s : Text) (h : ∃ c ∈ s, 127 < c) : enc_cppn s = .err "ViolationError" := by
+/-- ASCII text denotes itself (the statement before the repair, now a corollary). -/
+theorem cppn_roundtrip_ascii (s : Text) (hs : ∀ c ∈ s, c ≤ 127) :
+    ∃ lit, enc_cppn s = .ok lit ∧ dec_cppn lit = some s := by
+  obtain ⟨lit, h1, h2⟩ := cppn_roundtrip s (fun c hc => okSrc_small (by have := hs c hc; omega))
+  refine ⟨lit, h1, ?_⟩
+  rw [h2]
+  congr 1
+  clear h1 h2 lit
+  induction s with
+  | nil => rfl
+  | cons c s ih =>
+    have hc : c < 128 := by have := hs c (by simp); omega
+    simp only [List.flatMap_cons, utf8cp, if_pos hc, List.cons_append, List.nil_append]
+    rw [ih (fun x hx => hs x (by simp [hx]))]
+
+/-- A surrogate code point has no UTF-8 encoding: the generator raises instead of emitting a wrong literal. -/
+theorem cppn_error_outside (s : Text) (h : ∃ c ∈ s, 0xD800 ≤ c ∧ c ≤ 0xDFFF) :
+    enc_cppn s = .err "ValueError" := by
   unfold enc_cppn
-  have hall : ¬ (s.all (fun c => decide (c ≤ 127)) = true) := by
-    simp only [List.all_eq_true, decide_eq_true_eq]
-    intro hall
-    obtain ⟨c, hc, hgt⟩ := h
-    have := hall c hc; omega
-  rw [if_neg hall]
+  obtain ⟨c, hc, hsur⟩ := h
+  rw [mapRes_err escCppN "ValueError" s cppn_err_site ⟨c, hc, _, cppn_err_of_surrogate c hsur⟩]
 
 theorem cpp_needs_escaping_iff (s : Text) :
     needs_cpp s = true ↔ enc_cppw s ≠ .ok ([76, 34] ++ s ++ [34]) := by
